@@ -371,13 +371,7 @@ Section ExpectedFlat.
   Proof.
     intros Hroot Hprev q.
     assert (Hrm : rename_map [h] = []).
-    { unfold rename_map. cbn [flat_map]. rewrite app_nil_r.
-      induction (lh_gens h) as [|g gs IH]; [reflexivity|]. cbn [flat_map]. rewrite IH by (intros g' r' Hg'; apply Hprev; right; exact Hg').
-      rewrite app_nil_r.
-      assert (Hz : forall l, (forall r', In r' l -> r_prev r' = None) ->
-                flat_map (fun r => match r_prev r with Some q => [(lh_root h ++ q, lh_root h ++ r_path r)] | None => [] end) l = []).
-      { induction l as [|a l IHl]; intros H; [reflexivity|]. cbn [flat_map]. rewrite (H a (or_introl eq_refl)). apply IHl. intros r' Hr'. apply H. right. exact Hr'. }
-      apply Hz. intros r' Hr'. apply (Hprev g r'); [left; reflexivity|exact Hr']. }
+    { unfold rename_map. cbn [flat_map]. rewrite app_nil_r. apply hist_rename_map_nil. exact Hprev. }
     unfold expected_paths. rewrite (dedup_by_In path_eqb path_eqb_spec). 
     assert (Hren : forall p, renamed [h] p = p) by (intros p; unfold renamed; rewrite Hrm; reflexivity).
     rewrite (map_ext _ (fun p => p) Hren), map_id. unfold recorded_paths. cbn [flat_map]. rewrite app_nil_r, Hroot. cbn [app].
